@@ -79,6 +79,6 @@ Proof. exact decode_rejects. Qed.
 Print Assumptions C11_decode_rejects.
 
 Theorem C11_decode_accepts : forall c, cfg_ok c -> forall s,
-  valid c s -> exists r, decode c s = Ok r /\ cell_res c (cell_st c s) r.
+  valid c s -> exists r, decode c s = Ok r /\ cell_res (cell_st c s) r.
 Proof. exact decode_valid. Qed.
 Print Assumptions C11_decode_accepts.
